@@ -264,7 +264,7 @@ pub fn frames_checked(data: &[u8]) -> Result<u64, (String, String)> {
                 f
             }
             9 => {
-                let flags = if body.len() >= 2 { be16(body, 0) & 0x1ff } else { F_ACK };
+                let flags = if body.len() >= 2 { be16(body, 0) & 0xfff } else { F_ACK };
                 let ack = if body.len() >= 6 { be32(body, 2) } else { 0 };
                 tcp_frame(&net, &TcpH::new(flow.sport, flow.dport, seqs[k], ack, flags), if body.len() >= 6 { &body[6..] } else { &[] })
             }
@@ -373,8 +373,8 @@ pub fn write_seeds(dir: &str) -> i32 {
     let http = b"GET /index.html HTTP/1.1\r\nHost: example.org\r\nUser-Agent: x\r\n\r\n".to_vec();
     let ssh = b"SSH-2.0-OpenSSH_8.2p1 Ubuntu-4\r\n".to_vec();
     let ghost = b"Gh0st\x16\x00\x00\x00\x01\x00\x00\x00x\x9c\x63\x00\x00\x00\x01\x00\x01".to_vec();
-    let stun = StunReq { mtype: 1, magic: true, id: [7; 16], attrs: vec![] }.bytes();
-    let stun_cr = StunReq { mtype: 1, magic: false, id: [9; 16], attrs: vec![StunAttr { typ: 3, value: Hex(vec![0, 0, 0, 2]) }] }.bytes();
+    let stun = StunReq { mtype: 1, magic: true, id: [7; 16], attrs: vec![], trailer: Hex(vec![]) }.bytes();
+    let stun_cr = StunReq { mtype: 1, magic: false, id: [9; 16], attrs: vec![StunAttr { typ: 3, value: Hex(vec![0, 0, 0, 2]) }], trailer: Hex(vec![]) }.bytes();
     let dns = DnsQuery { id: 0x1337, flags: 0x0100, questions: vec![DnsQuestion { labels: vec![Hex(b"www".to_vec()), Hex(b"example".to_vec()), Hex(b"com".to_vec())], qtype: 1, qclass: 1 }] }.bytes();
     let rpc = RpcCall { xid: 0x72fe1d13, rpcvers_low: 2, program: 100000, version: 2, procedure: 3, cred_flavor: 0, cred: Hex(vec![]), verf_flavor: 0, verf: Hex(vec![]), args: Hex(vec![0, 1, 0x86, 0xa0, 0, 0, 0, 2, 0, 0, 0, 6, 0, 0, 0, 0]) };
     let smb1 = SmbReq::Smb1Negotiate { hdr: Smb1Hdr { command: 0x72, status: 0, flags: 0x18, flags2: 0xc843, pid_high: 0, signature: [0; 8], tid: 0, pid_low: 0xfffe, uid: 0, mid: 0 }, dialects: vec!["NT LANMAN 1.0".into(), "NT LM 0.12".into(), "SMB 2.002".into(), "SMB 2.???".into()] }.bytes();
